@@ -117,6 +117,7 @@ func main() {
 			"'ended failed' is decided from logged facts: the task's own failing command was logged, or a prerequisite failed; in separated mode additionally from Errors() of the finished prerequisite (each top-level task has a context of its own there). Errors() of tasks sharing one context (shared mode, nested tasks) is not used to call a prerequisite failed",
 			"a nested pip:run whose task failed (or whose submission was refused) counts as a failing command of the enclosing body",
 			"whether a valid submission made after a failure in the same shared scope is accepted is not specified; such refusals are counted, not judged",
+			"in a directly driven program in which nothing failed (no failing command, no malformed line, no refused nested submission; refused top-level submissions create no task) no task may end with errors",
 			"'all interleavings' = the interleavings produced under GOMAXPROCS 1/2/4/8 with PRNG-chosen holds; the race detector's reports are observations only (DESIGN.md §1)",
 		},
 		Plan:        plan,
